@@ -4,14 +4,14 @@ From Coq Require Import List Arith Lia Bool String NArith ListDec.
 From GQL Require Import Exec.Syntax Validate.VSyntax Validate.Overlap Validate.OverlapSpec Validate.Rules Validate.All
      Validate.OverlapWf
      Proofs.ValidateRules Proofs.ValidateInputFields Proofs.ValidateCycles Proofs.ValidateCyclesComplete Proofs.ValidateUnused Proofs.ValidateMemo
-     Proofs.ValidateMemoHard Proofs.ValidateWf Proofs.ValidateWfDoc Proofs.ValidateDecide Proofs.ValidateClosure.
+     Proofs.ValidateMemoHard Proofs.ValidateWf Proofs.ValidateWfDoc Proofs.ValidateDecide Proofs.ValidateClosure Proofs.ValidateRulesDecl Proofs.ValidateLiteral.
 Import ListNotations.
 Open Scope N_scope.
 
 Definition Violates (r : N) (S : schema) (W : wdoc) : Prop :=
   match r with
-  | 0 => Violates_arguments_of_correct_type S W
-  | 1 => Violates_default_values_of_correct_type S W
+  | 0 => Violates_arguments_of_correct_type_decl S W
+  | 1 => Violates_default_values_of_correct_type_decl S W
   | 2 => Violates_fields_on_correct_type S W
   | 3 => Violates_fragments_on_composite S W
   | 4 => Violates_known_argument_names S W
@@ -20,11 +20,11 @@ Definition Violates (r : N) (S : schema) (W : wdoc) : Prop :=
   | 7 => Violates_known_type_names S W
   | 8 => Violates_lone_anonymous W
   | 9 => Violates_no_fragment_cycles W
-  | 10 => Violates_no_undefined_variables S W
+  | 10 => Violates_no_undefined_variables_decl S W
   | 11 => Violates_no_unused_fragments W
-  | 12 => Violates_no_unused_variables S W
+  | 12 => Violates_no_unused_variables_decl S W
   | 13 => ~ L1_accepts S (erase W)
-  | 14 => Violates_possible_fragment_spreads S W
+  | 14 => Violates_possible_fragment_spreads_decl S W
   | 15 => Violates_provided_non_null_arguments S W
   | 16 => Violates_scalar_leafs S W
   | 17 => Violates_unique_argument_names S W
@@ -33,7 +33,7 @@ Definition Violates (r : N) (S : schema) (W : wdoc) : Prop :=
   | 20 => Violates_unique_operation_names W
   | 21 => Violates_unique_variable_names W
   | 22 => Violates_variables_are_input_types S W
-  | 23 => Violates_variables_in_allowed_position S W
+  | 23 => Violates_variables_in_allowed_position_decl S W
   | _ => False
   end.
 
@@ -71,8 +71,8 @@ Proof.
   assert (R : forall r, In r all_rules -> r <> 9 -> r <> 13 -> (run_rule_f fuel r S W = [] <-> ~ Violates r S W)).
   { intros r Hr N9 N13. unfold all_rules in Hr. simpl in Hr.
     repeat (destruct Hr as [Hr|Hr]; [subst r; simpl|]); try destruct Hr; try (exfalso; apply N9; reflexivity); try (exfalso; apply N13; reflexivity).
-    - apply nil_iff. apply arguments_of_correct_type_iff.
-    - apply nil_iff. apply default_values_of_correct_type_iff.
+    - apply nil_iff. apply arguments_of_correct_type_decl_iff.
+    - apply nil_iff. apply default_values_of_correct_type_decl_iff.
     - apply nil_iff. apply fields_on_correct_type_iff.
     - apply nil_iff. apply fragments_on_composite_iff.
     - apply nil_iff. apply known_argument_names_iff.
@@ -80,10 +80,10 @@ Proof.
     - apply nil_iff. apply known_fragment_names_iff.
     - apply nil_iff. apply known_type_names_iff.
     - apply nil_iff. apply lone_anonymous_iff.
-    - apply nil_iff. apply no_undefined_variables_iff.
+    - apply nil_iff. apply no_undefined_variables_decl_iff.
     - apply nil_iff. apply no_unused_fragments_iff. exact Hst.
-    - apply nil_iff. apply no_unused_variables_iff.
-    - apply nil_iff. apply possible_fragment_spreads_iff.
+    - apply nil_iff. apply no_unused_variables_decl_iff.
+    - apply nil_iff. apply possible_fragment_spreads_decl_iff.
     - apply nil_iff. apply provided_non_null_arguments_iff.
     - apply nil_iff. apply scalar_leafs_iff.
     - apply nil_iff. apply unique_argument_names_iff.
@@ -92,7 +92,7 @@ Proof.
     - apply nil_iff. apply unique_operation_names_iff.
     - apply nil_iff. apply unique_variable_names_iff.
     - apply nil_iff. apply variables_are_input_types_iff.
-    - apply nil_iff. apply variables_in_allowed_position_iff. }
+    - apply nil_iff. apply variables_in_allowed_position_decl_iff. }
   assert (In9 : In 9 all_rules) by (unfold all_rules; simpl; auto 30).
   assert (In13 : In 13 all_rules) by (unfold all_rules; simpl; auto 30).
   assert (In17 : In 17 all_rules) by (unfold all_rules; simpl; auto 30).
